@@ -312,6 +312,12 @@ func checkC05History(c *Case, s *Stats) error {
 	for _, e := range c.Extra {
 		qs = append(qs, string(e))
 	}
+	type keptOut struct {
+		step int
+		out  []byte // the slice exactly as Marshal returned it
+		snap []byte // a private copy taken at that moment
+	}
+	var kept []keptOut
 	inst := emptyTrie(c)
 	if c.Scrib&1 == 1 && !isLegacyLoad(c.Pool[0]) {
 		// the instance starts its life as a BUILT trie (not a loaded one)
@@ -428,6 +434,27 @@ func checkC05History(c *Case, s *Stats) error {
 			}
 		}
 		s.calls(4 * len(qs))
+		// bytes handed out by Marshal at earlier steps belong to the caller: they
+		// must still read as they did when they were returned
+		for ki, k := range kept {
+			if !bytes.Equal(k.out, k.snap) {
+				return viol("output-aliased", "%s: the bytes returned by Marshal after step %d were changed by a later operation on the instance", what, k.step)
+			}
+			_ = ki
+		}
+		if cur >= 0 {
+			err := guard(what+": Marshal", func() error {
+				out, e := inst.Marshal()
+				if e != nil {
+					return viol("marshal", "%s: Marshal failed: %v", what, e)
+				}
+				kept = append(kept, keptOut{step: step, out: out, snap: append([]byte{}, out...)})
+				return nil
+			})
+			if err != nil {
+				return err
+			}
+		}
 	}
 	for _, op := range c.Hist {
 		s.class("hist_op=" + op.Op)
@@ -653,4 +680,54 @@ func legacyFidelity(repo string) (identical, different, missing int, diffs []str
 		}
 	}
 	return
+}
+
+// liveCheck wraps a property check with a two-object history: c.Earlier is
+// built first and kept alive, its answers are recorded, the property's own check
+// runs (it builds, loads, and sometimes fails to build, other tries), and the
+// earlier trie must then still give exactly the recorded answers.
+func liveCheck(check func(*Case, *Stats) error) func(*Case, *Stats) error {
+	return func(c *Case, s *Stats) error {
+		if c.Earlier == nil {
+			return check(c, s)
+		}
+		e := *c.Earlier
+		e.Load = ""
+		em := newModel(&e)
+		var est *trie.SlimTrie
+		err := guard("NewSlimTrie (earlier instance)", func() error {
+			var be error
+			est, be = e.build()
+			if be != nil {
+				return viol("build", "NewSlimTrie rejected valid input: %v", be)
+			}
+			return nil
+		})
+		if err != nil {
+			return err
+		}
+		qs := append([]string{}, em.AllKeys...)
+		if len(qs) > 300 {
+			qs = append(qs[:150], qs[len(qs)-150:]...)
+		}
+		for i, x := range queries(em.AllKeys, e.Win, nil, false) {
+			if i < 200 {
+				qs = append(qs, x)
+			}
+		}
+		o := obsOpt{typed: typedEnc(&e), scans: scansOK(&e), stat: true, str: len(e.Keys) < 800, marshal: true}
+		before := observe(est, qs, o)
+		if err := check(c, s); err != nil {
+			return err
+		}
+		// one more unrelated build and a late rejected build, then look again
+		if _, err := lateRejectedBuild(); err != nil {
+			return err
+		}
+		if d := diffObs(before, observe(est, qs, o)); d != "" {
+			return viol("live-instance-changed", "a trie that was built earlier and is still alive answers differently after later builds and loads: %s", d)
+		}
+		s.class("earlier_live_instance_rechecked")
+		return nil
+	}
 }
